@@ -49,6 +49,10 @@ public:
     int nextId = 1;
     int bindFailuresLeft = 0;        // fault: the next binds report "address in use"
     std::function<void(const Datagram &)> onSend;   // observer (oracles)
+    std::function<bool(const Datagram &)> onUnbound;   // a node of the world that is not a QUdpSocket (TURN server); true: consumed
+    std::function<bool(const Datagram &)> blocked;     // a path the network does not carry (true: dropped)
+    quint64 droppedBlocked = 0;
+    std::function<QHostAddress(QUdpSocket *)> anyAddress;   // address given to a socket bound to "any" (bind(port))
     quint64 sent = 0, delivered = 0, droppedNoListener = 0;
 
     Bound *find(const QUdpSocket *s);
